@@ -10,8 +10,11 @@ Record cobs := CObs { co_bal : list (N * N * N * Z); co_from : list (N * ccrec);
 Inductive case :=
 | COne (me admin : N) (init : list (N * N * N * Z)) (ops : list ccop) (steps : list (option err * cobs))
     (* arbitrary operations (also out of turn) on one channel, observed after every step *)
-| CTwo (a b adminA adminB : N) (initA initB : list (N * N * N * Z)) (acts : list act) (fa fb : cobs).
+| CTwo (a b adminA adminB : N) (initA initB : list (N * N * N * Z)) (acts : list act) (fa fb : cobs)
     (* two channels, users + protocol robot; final observation of both *)
+| CRestore (before after : list (N * Z)).
+    (* a transfer under some ticker that was created and cancelled, or carried through the whole protocol there and back
+       again: every balance entry of both channels (numbered by the harness) before and after *)
 
 Definition same_bals (m : bals) (b : list (N * N * N * Z)) : bool :=
   let mb : bals := list_to_map b in
@@ -35,6 +38,7 @@ Definition corr (c : case) : bool :=
   | CTwo a b aa ab ia ib acts fa fb =>
     let s := sys_run (sys0 a b aa ab (list_to_map ia) (list_to_map ib)) acts in
     same_chan (sA s) fa && same_chan (sB s) fb
+  | CRestore _ _ => true        (* nothing of the model is involved: a predicate on the observations alone *)
   end.
 
 (* ---- the property on the implementation's outputs ---------------------------------- *)
@@ -102,6 +106,10 @@ Definition holds (c : case) : bool :=
        (o_held fb a - o_held (CObs ib [] []) a) + o_inflight fa fb true b + o_inflight fb fa false a) &&
     ((o_giv fb a - o_giv (CObs ib [] []) a) =?
        (o_held fa b - o_held (CObs ia [] []) b) + o_inflight fb fa true a + o_inflight fa fb false b)
+  | CRestore before after =>
+    (* exact refund / the same user, token and amount: every balance entry is what it was *)
+    let get (l : list (N * Z)) k := match List.find (fun p => N.eqb (fst p) k) l with Some p => snd p | None => 0 end in
+    forallb (fun p => get before (fst p) =? get after (fst p)) (before ++ after)
   end.
 
 Definition label (c : case) : N :=
@@ -110,4 +118,5 @@ Definition label (c : case) : N :=
        | None => 1 | Some EExists => 2 | Some ENotFound => 4 | Some ECommitted => 8 | Some ENotCommitted => 16
        | Some EInsufficient => 32 | Some EChannel => 64 | Some EToken => 128 | Some _ => 256 end) 0%N steps
   | CTwo _ _ _ _ _ _ acts _ _ => (512 + N.of_nat (length acts) / 8 * 1024)%N
+  | CRestore _ _ => 256%N
   end.
